@@ -72,6 +72,9 @@ class FileIndex:
         self.fns = {}      # (ImplType or None, name) -> token index of `fn`
         self.structs = {}  # name -> [(field, type_ast)]
         self.enums = {}    # name -> [variant] (unit variants only; None if it has data variants)
+        self.enum_data = {}  # name -> [(variant, None | ("tuple", [type]) | ("struct", [(field, type)]))] for enums with data
+        self.tuple_structs = {}  # name -> [component type]
+        self.decl_only = set()   # (impl, name) of trait method declarations without a body
         self.consts = {}   # name -> (type_ast, [tokens of expr])
         self._scan()
 
@@ -142,6 +145,8 @@ class FileIndex:
                     j += 1
                 if j < n and t[j].s == "{":
                     stack.append(("fn", t[i + 1].s)); i = j + 1; continue
+                if not in_fn and not in_tests:
+                    self.decl_only.add(key)
                 i = j + 1; continue
             if t[i].k == "id" and s == "struct" and i + 1 < n and t[i + 1].k == "id" and not any(x[0] == "fn" for x in stack):
                 name = t[i + 1].s
@@ -163,37 +168,87 @@ class FileIndex:
                                 p.skip_group()
                         fname = p.ident()
                         p.expect(":")
+                        start = p.i
                         try:
                             ty = p.type_()
+                            if p.peek().s not in (",", "}"): raise RsError("type tail")
                         except RsError:
                             ty = None
+                            p.i = start
                             p.skip_to_comma()
                         fields.append((fname, ty))
                         if not p.accept(","): break
                     p.expect("}")
                     if name not in self.structs:
                         self.structs[name] = fields
-                    i = p.i
+                    i = p.i - (len(p.t) - len(t))
                     continue
+                if j < n and t[j].s == "(" and name not in self.tuple_structs:
+                    # tuple struct `struct KVV(pub String, pub (u64, Vec<u8>));` -> the tuple of its components
+                    p = Parser(t, j + 1, self.rel)
+                    comps = []
+                    try:
+                        while p.peek().s != ")":
+                            p.skip_attrs()
+                            if p.peek().s == "pub":
+                                p.next()
+                                if p.peek().s == "(" and p.peek(1).s in ("crate", "super", "in", "self"):
+                                    p.skip_group()
+                            comps.append(p.type_())
+                            if not p.accept(","): break
+                        p.expect(")")
+                        self.tuple_structs[name] = comps
+                        i = p.i - (len(p.t) - len(t))
+                        continue
+                    except RsError:
+                        pass
             if t[i].k == "id" and s == "enum" and i + 1 < n and t[i + 1].k == "id" and not any(x[0] == "fn" for x in stack):
                 name = t[i + 1].s
                 j = i + 2
                 while j < n and t[j].s != "{": j += 1
                 p = Parser(t, j + 1, self.rel)
-                variants, unit = [], True
+                variants, unit, data, data_ok = [], True, [], True
                 while p.peek().s != "}":
                     p.skip_attrs()
                     if p.peek().s == "}": break
                     v = p.ident()
+                    payload = None
                     if p.peek().s in ("(", "{"):
-                        unit = False; p.skip_group()
+                        unit = False
+                        start = p.i
+                        try:
+                            if p.accept("("):
+                                comps = []
+                                while p.peek().s != ")":
+                                    p.skip_attrs()
+                                    comps.append(p.type_())
+                                    if not p.accept(","): break
+                                p.expect(")")
+                                payload = ("tuple", comps)
+                            else:
+                                p.expect("{")
+                                flds = []
+                                while p.peek().s != "}":
+                                    p.skip_attrs()
+                                    fn_ = p.ident(); p.expect(":")
+                                    flds.append((fn_, p.type_()))
+                                    if not p.accept(","): break
+                                p.expect("}")
+                                payload = ("struct", flds)
+                        except RsError:
+                            data_ok = False
+                            p.i = start
+                            p.skip_group()
                     if p.accept("="):
                         p.expr()
                     variants.append(v)
+                    data.append((v, payload))
                     if not p.accept(","): break
                 p.expect("}")
                 self.enums.setdefault(name, variants if unit else None)
-                i = p.i
+                if not unit and data_ok:
+                    self.enum_data.setdefault(name, data)
+                i = p.i - (len(p.t) - len(t))
                 continue
             if t[i].k == "id" and s == "const" and i + 2 < n and t[i + 1].k == "id" and t[i + 2].s == ":" \
                     and not any(x[0] == "fn" for x in stack):
@@ -203,7 +258,7 @@ class FileIndex:
                     ty = p.type_(); p.expect("=")
                     e = p.expr(); p.expect(";")
                     self.consts.setdefault(name, (ty, e))
-                    i = p.i
+                    i = p.i - (len(p.t) - len(t))
                     continue
                 except RsError:
                     pass
@@ -241,6 +296,7 @@ class FileIndex:
 
 BINPREC = {"||": 1, "&&": 2, "==": 3, "!=": 3, "<": 3, ">": 3, "<=": 3, ">=": 3, "|": 4, "^": 5, "&": 6,
            "<<": 7, ">>": 7, "+": 8, "-": 8, "*": 9, "/": 9, "%": 9}
+BLOCKLIKE = ("if", "iflet", "match", "for", "block", "while", "whilelet", "loop")
 ASSIGN_OPS = ("=", "+=", "-=", "*=", "/=", "%=", "^=", "&=", "|=", "<<=", ">>=")
 
 
@@ -333,7 +389,9 @@ class Parser:
         if self.accept("["):
             t = self.type_()
             if self.accept(";"):
-                self.expr()
+                n = self.expr()
+                self.expect("]")
+                return ("array", t, n)
             self.expect("]")
             return ("vec", t)
         if self.peek().s in ("impl", "dyn", "fn", "*"):
@@ -363,6 +421,8 @@ class Parser:
         if name == "Option" and len(args) == 1: return ("opt", args[0])
         if name == "Result" and len(args) >= 1: return ("result", args[0], args[1] if len(args) > 1 else ("named", "Error", []))
         if name in ("Vec", "VecDeque") and len(args) == 1: return ("vec", args[0])
+        if name in ("BTreeSet", "HashSet", "OrderedSet", "UnorderedSet") and len(args) >= 1:
+            return ("named", "__set_" + ("o" if name in ("BTreeSet", "OrderedSet") else "u"), [args[0]])
         if name == "Box" and len(args) == 1: return args[0]
         return ("named", name, args)
 
@@ -414,7 +474,23 @@ class Parser:
                         self.expect(")"); break
                 return ("pctor", segs, ps)
             if self.peek().s == "{":
-                self.err("struct patterns are outside the subset")
+                # struct pattern `S { f, g: pat, .. }` (also struct-like enum variants)
+                self.next()
+                fps, rest = [], False
+                while not self.accept("}"):
+                    if self.accept(".."):
+                        rest = True; self.expect("}"); break
+                    if self.peek().s in ("ref", "mut") and self.peek().k == "id": self.next()
+                    if self.peek().s == "mut" and self.peek().k == "id": self.next()
+                    fn_ = self.ident()
+                    if self.accept(":"):
+                        fp = self.pattern()
+                    else:
+                        fp = ("pvar", fn_)
+                    fps.append((fn_, fp))
+                    if not self.accept(","):
+                        self.expect("}"); break
+                return ("pstruct", segs, fps, rest)
             if len(segs) == 1 and (segs[0][0].islower() or segs[0][0] == "_"):
                 if self.peek().s == "@":
                     self.err("binding @ patterns are outside the subset")
@@ -465,7 +541,10 @@ class Parser:
         if self.accept("->"):
             ret = self.type_()
         if self.peek().s == "where":
-            while self.peek().s != "{": self.next()
+            while self.peek().s not in ("{", ";"): self.next()
+        if self.peek().s == ";":
+            self.next()
+            return {"name": name, "params": params, "self": selfk, "ret": ret, "body": None}
         body = self.block()
         return {"name": name, "params": params, "self": selfk, "ret": ret, "body": body}
 
@@ -486,8 +565,13 @@ class Parser:
                 e = None
                 if self.accept("="):
                     e = self.expr()
-                if self.peek().s == "else":
-                    self.err("let-else is outside the subset")
+                if self.peek().s == "else" and self.peek().k == "id":
+                    self.next()
+                    els = self.block()
+                    self.expect(";")
+                    if e is None: self.err("let-else without initialiser")
+                    stmts.append(("letelse", pat, ty, e, els, x.line))
+                    continue
                 self.expect(";")
                 stmts.append(("let", pat, ty, e, x.line))
                 continue
@@ -495,14 +579,16 @@ class Parser:
                 self.next(); name = self.ident(); self.expect(":"); ty = self.type_(); self.expect("=")
                 e = self.expr(); self.expect(";")
                 stmts.append(("const", name, ty, e, x.line)); continue
-            if x.s in ("fn", "struct", "enum", "impl", "use", "static", "type", "trait", "unsafe", "loop", "while") and x.k == "id":
+            if x.s in ("fn", "struct", "enum", "impl", "use", "static", "type", "trait", "unsafe") and x.k == "id":
                 self.err("item/statement %r inside a body is outside the subset" % x.s)
             e = self.expr(stmt=True)
             if self.accept(";"):
                 stmts.append(("expr", e, x.line)); continue
+            if self.peek().s == "}" and e[0] in ("for", "while", "whilelet"):
+                self.next(); stmts.append(("expr", e, x.line)); break      # unit-valued: a statement, not a value
             if self.peek().s == "}":
                 self.next(); tail = e; break
-            if e[0] in ("if", "iflet", "match", "for", "block"):
+            if e[0] in BLOCKLIKE:
                 stmts.append(("expr", e, x.line)); continue
             self.err("expected ';' or '}'")
         return ("block", stmts, tail)
@@ -520,17 +606,22 @@ class Parser:
         return l
 
     def range_(self, nostruct, stmt=False):
-        l = self.binary(1, nostruct, stmt)
-        if self.peek().s in ("..", "..="):
+        ends = ("]", ")", ";", ",", "}", "{")
+        if self.peek().s in ("..", "..=") and self.peek().k == "p":
             op = self.next().s
-            r = self.binary(1, nostruct)
+            r = None if self.peek().s in ends else self.binary(1, nostruct)
+            return ("range", None, r, op == "..=")
+        l = self.binary(1, nostruct, stmt)
+        if self.peek().s in ("..", "..=") and self.peek().k == "p":
+            op = self.next().s
+            r = None if self.peek().s in ends else self.binary(1, nostruct)
             return ("range", l, r, op == "..=")
         return l
 
     def binary(self, minprec, nostruct, stmt=False):
-        l = self.unary(nostruct)
+        l = self.unary(nostruct, stmt)
         # a block-like expression at statement position ends the statement
-        if stmt and l[0] in ("if", "iflet", "match", "for", "block") and self.peek().s not in (".", "?"):
+        if stmt and l[0] in BLOCKLIKE and self.peek().s not in (".", "?"):
             return l
         while True:
             x = self.peek()
@@ -542,7 +633,7 @@ class Parser:
             l = ("binary", x.s, l, r)
         return l
 
-    def unary(self, nostruct):
+    def unary(self, nostruct, stmt=False):
         x = self.peek()
         if x.k == "p" and x.s == "!":
             self.next(); return ("unary", "!", self.unary(nostruct))
@@ -551,8 +642,13 @@ class Parser:
         if x.k == "p" and x.s == "*":
             self.next(); return ("deref", self.unary(nostruct))
         if x.k == "p" and x.s in ("&", "&&"):
-            self.next(); self.accept("mut"); return ("ref", self.unary(nostruct))
-        e = self.postfix(self.primary(nostruct), nostruct)
+            self.next()
+            if self.accept("mut"): return ("ref", self.unary(nostruct), True)     # `&mut place`: a mutation of the place
+            return ("ref", self.unary(nostruct))
+        e = self.primary(nostruct)
+        if stmt and e[0] in BLOCKLIKE and self.peek().s in ("(", "["):
+            return e      # a block-like expression statement ends here: `if c { } (a, b)` is not a call
+        e = self.postfix(e, nostruct)
         while self.peek().s == "as" and self.peek().k == "id":
             self.next()
             ty = self.type_()
@@ -602,7 +698,23 @@ class Parser:
         if x.k == "str":
             self.next(); return ("str", x.s[1:-1] if not x.s.startswith("b") else x.s[2:-1])
         if x.k == "chr":
+            if x.s.startswith("b") and len(x.s) == 4:
+                self.next(); return ("int", ord(x.s[2]), "u8")
             self.err("char literal is outside the subset")
+        if x.s == "[" and x.k == "p":
+            self.next()
+            es = []
+            if self.accept("]"): return ("array", es)
+            first = self.expr()
+            if self.accept(";"):
+                n = self.expr(); self.expect("]")
+                return ("arrayrep", first, n)
+            es.append(first)
+            while self.accept(","):
+                if self.peek().s == "]": break
+                es.append(self.expr())
+            self.expect("]")
+            return ("array", es)
         if x.s == "(" and x.k == "p":
             self.next()
             es = []
@@ -680,7 +792,28 @@ class Parser:
             if self.peek().s in (";", "}", ","):
                 return ("return", None)
             return ("return", self.expr())
-        if x.s in ("loop", "while", "break", "continue", "unsafe", "async", "move", "let"):
+        if x.s == "while":
+            self.next()
+            if self.peek().s == "let" and self.peek().k == "id":
+                self.next()
+                pat = self.pattern(); self.expect("=")
+                e = self.expr(nostruct=True)
+                return ("whilelet", pat, e, self.block())
+            c = self.expr(nostruct=True)
+            return ("while", c, self.block())
+        if x.s == "loop":
+            self.next()
+            return ("loop", self.block())
+        if x.s == "break":
+            self.next()
+            if self.peek().k == "life": self.err("labelled break is outside the subset")
+            if self.peek().s not in (";", "}", ","): self.err("break with a value is outside the subset")
+            return ("break",)
+        if x.s == "continue":
+            self.next()
+            if self.peek().k == "life": self.err("labelled continue is outside the subset")
+            return ("continue",)
+        if x.s in ("unsafe", "async", "move", "let"):
             self.err("%r is outside the subset" % x.s)
         if x.s in ("true", "false"):
             self.next(); return ("bool", x.s == "true")
